@@ -274,3 +274,41 @@ def check_wakeup_close_idempotent(times: int) -> bool:
     w.wakeup()  # after close: silently ignored
     w.clear()
     return log.count("r-close") == 1 and log.count("w-close") == 1 and log.count("send") == 1
+
+
+def check_shutdown_call(wait: bool, kill: bool, started: bool) -> bool:
+    """
+    post: _
+    """
+    # real ProcessPoolExecutor.shutdown on a fake executor: whatever `wait` is, the flag is set first and the
+    # manager thread is woken (under the shutdown lock) so that it can notice; join only when waited
+    log = Log()
+    sl = FakeLock(log, "shutdown_lock")
+    flags = FakeFlags(sl)
+    joined = []
+
+    class _Mgr:
+        def join(self):
+            joined.append((flags.shutdown, log.count("wakeup", True)))
+    mgr = _Mgr() if started else None
+    fake = NS(_flags=flags, _executor_manager_thread=mgr,
+              _executor_manager_thread_wakeup=FakeWakeup(log, sl), _shutdown_lock=sl,
+              _call_queue="q", _result_queue="r", _processes_management_lock="l")
+    saved = pe._threads_wakeups
+    pe._threads_wakeups = {mgr: "x"} if started else {}
+    try:
+        pe.ProcessPoolExecutor.shutdown(fake, wait=wait, kill_workers=kill)
+        left = dict(pe._threads_wakeups)
+    finally:
+        pe._threads_wakeups = saved
+    if not flags.shutdown or flags.kill_workers != kill or sl.held:
+        return False
+    if log.count("wakeup", True) != 1:
+        return False  # exactly one wake-up, sent while holding the shutdown lock, also when not waiting
+    i_flag = [i for i, e in enumerate(log) if e == ("acquire", "shutdown_lock")][0]
+    i_wake = [i for i, e in enumerate(log) if e[0] == "wakeup"][0]
+    if i_wake < i_flag:
+        return False  # the flag is published before the manager is woken
+    if started and wait:
+        return joined == [(True, 1)] and left == {}
+    return joined == []
